@@ -266,6 +266,7 @@ def bandlimited_rms(r, psd, wllow=None, wlhigh=None, flow=None, fhigh=None):
         c2 = tuple(c2)
         pt1 = r[c]
         pt2 = r[c2]
+        pt3 = r[c[0], c[1]-1]  # neighbor along the other axis
     else:
         c = r.shape[0]//2
         pt1 = r[c]
@@ -276,6 +277,9 @@ def bandlimited_rms(r, psd, wllow=None, wlhigh=None, flow=None, fhigh=None):
     reduced = _trapezoid(work, dx=dx, axis=0)
 
     if r.ndim == 2:
+        # the second integration runs along the other axis, whose frequency
+        # step differs from the first when the data is not square
+        dx = abs(pt3 - pt1)
         reduced = _trapezoid(reduced, dx=dx, axis=0)
 
     return np.sqrt(reduced)
